@@ -112,7 +112,7 @@ class ParserSessionProp(object):
         xl = tier == 'thorough'
         # thorough tier: four different six-word sentences over a larger category space share one call, so that the
         # call's rule cache passes 2^20 entries while a later one is being searched
-        lengths = [6, 6, 6, 6, 2] if xl else [6, 2]
+        lengths = [6, 6, 6, 6, 6, 2] if xl else [6, 2]
         for sid, n in enumerate(lengths):
             tag, dep = gen.make_scores(nprng, rng, n, 4, 'continuous')
             if n > 2:
@@ -127,7 +127,7 @@ class ParserSessionProp(object):
                              'fanout': 2,      # two hashed results per pair: > 10^6 pops and agenda entries for six words
                              'categories': ['A', 'B', 'C', 'D'], 'roots': [f'H{k}' for k in range(modulus)], 'lang': 'en'},
                  'sentences': sentences}
-        op = {'op': 'call', 'batch': [0, 1, 2, 3, 4] if xl else [0, 1, 0], 'processes': 1, 'max_chunk_size': 20, 'unary_penalty': 0.1,
+        op = {'op': 'call', 'batch': [0, 1, 2, 3, 4, 5] if xl else [0, 1, 0], 'processes': 1, 'max_chunk_size': 20, 'unary_penalty': 0.1,
               'beta': 1e-5, 'use_beta': False, 'pruning_size': 4, 'nbest': 1, 'max_step': 3000000, 'max_length': 250}
         return {'prop': self.id, 'seed': seed, 'index': index, 'world': wspec, 'ops': [op],
                 'knobs': {'family': 'stress', 'fault_class': 'none', 'nbest': 1}, 'executor': 'inprocess'}
